@@ -120,6 +120,71 @@ Proof.
   exact (memo2d_recursive_dynamic unit (pure_rule2 f) store f (answers_pure f) r ty pred R C hist fuel p0 tt).
 Qed.
 
+(* The property speaks of "any rule whose result depends only on the neighbourhood contents": that includes
+   STATEFUL callables (loggers, counters, rules caching things of their own) as long as the value they return
+   is a function f of the neighbourhood.  `rule : rule2 St` is an arbitrary state machine over an arbitrary state
+   type St, started in an arbitrary state s0; the memoized runs call it fewer times (so its final state
+   differs), the returned arrays do not.
+   `built R C r ty n` (Proofs/Memo2DProofs.v) := exists g row col, g is a well-shaped R x C grid, row < R, col < C and
+   n = get_neighbourhood g R C r row col ty  (spelled out in C04_memo2d_true_transparent_on_built_neighbourhoods). *)
+Theorem C04_memo2d_true_transparent_answering :
+  forall (St : Type) (rule : rule2 St) (f : nbhd2 -> Z) (s0 : St)
+         (store : Z -> Z) (r : nat) (ty : nbhd_type) (R C : nat) (hist : list grid) (T : nat),
+  (forall s n c t, snd (rule s n c t) = f n) ->
+  (forall n n', built R C r ty n -> built R C r ty n' ->
+                nb_mask n = nb_mask n' -> unmasked n = unmasked n' -> f n = f n') ->
+  1 <= R -> 1 <= C -> r <= Nat.min R C ->
+  length (last hist []) = R /\ Forall (fun row => length row = C) (last hist []) ->
+  arr2_of (evolve2d_mode_fixed rule store Memo r ty s0 hist T)
+  = arr2_of (evolve2d_mode_fixed rule store Plain r ty s0 hist T).
+Proof.
+  intros St rule f s0 store r ty R C hist T Hf Hum.
+  exact (memo2d_true_fixed_built St rule store f r ty R C Hf Hum hist T s0).
+Qed.
+
+Theorem C04_memo2d_true_transparent_answering_callable :
+  forall (St : Type) (rule : rule2 St) (f : nbhd2 -> Z) (s0 : St)
+         (store : Z -> Z) (r : nat) (ty : nbhd_type) (R C : nat) (hist : list grid)
+         (P : Type) (pred : P -> list grid -> nat -> P * bool) (fuel : nat) (p0 : P),
+  (forall s n c t, snd (rule s n c t) = f n) ->
+  (forall n n', built R C r ty n -> built R C r ty n' ->
+                nb_mask n = nb_mask n' -> unmasked n = unmasked n' -> f n = f n') ->
+  1 <= R -> 1 <= C -> r <= Nat.min R C ->
+  length (last hist []) = R /\ Forall (fun row => length row = C) (last hist []) ->
+  dyn_arr2_of (evolve2d_mode_dynamic rule store pred Memo r ty fuel p0 s0 hist)
+  = dyn_arr2_of (evolve2d_mode_dynamic rule store pred Plain r ty fuel p0 s0 hist).
+Proof.
+  intros St rule f s0 store r ty R C hist P pred fuel p0 Hf Hum.
+  exact (memo2d_true_dynamic_built St rule store f r ty R C Hf Hum pred hist fuel p0 s0).
+Qed.
+
+Theorem C04_memo2d_recursive_transparent_answering :
+  forall (St : Type) (rule : rule2 St) (f : nbhd2 -> Z) (s0 : St)
+         (store : Z -> Z) (r : nat) (ty : nbhd_type) (R C : nat) (hist : list grid) (T : nat),
+  (forall s n c t, snd (rule s n c t) = f n) ->
+  1 <= R -> 1 <= C -> r <= Nat.min R C ->
+  length (last hist []) = R /\ Forall (fun row => length row = C) (last hist []) ->
+  arr2_of (evolve2d_mode_fixed rule store Recursive r ty s0 hist T)
+  = arr2_of (evolve2d_mode_fixed rule store Plain r ty s0 hist T).
+Proof.
+  intros St rule f s0 store r ty R C hist T Hf.
+  exact (memo2d_recursive_fixed St rule store f Hf r ty R C hist T s0).
+Qed.
+
+Theorem C04_memo2d_recursive_transparent_answering_callable :
+  forall (St : Type) (rule : rule2 St) (f : nbhd2 -> Z) (s0 : St)
+         (store : Z -> Z) (r : nat) (ty : nbhd_type) (R C : nat) (hist : list grid)
+         (P : Type) (pred : P -> list grid -> nat -> P * bool) (fuel : nat) (p0 : P),
+  (forall s n c t, snd (rule s n c t) = f n) ->
+  1 <= R -> 1 <= C -> r <= Nat.min R C ->
+  length (last hist []) = R /\ Forall (fun row => length row = C) (last hist []) ->
+  dyn_arr2_of (evolve2d_mode_dynamic rule store pred Recursive r ty fuel p0 s0 hist)
+  = dyn_arr2_of (evolve2d_mode_dynamic rule store pred Plain r ty fuel p0 s0 hist).
+Proof.
+  intros St rule f s0 store r ty R C hist P pred fuel p0 Hf.
+  exact (memo2d_recursive_dynamic St rule store f Hf r ty pred R C hist fuel p0 s0).
+Qed.
+
 (* one step of the quad-tree engine started from ANY cache whose entries hold, for their key, the rule
    applied to every (2r+1)^2 window of the key: it returns the plain next grid and such a cache *)
 Theorem C04_recursive_step_any_cache :
@@ -187,6 +252,16 @@ Proof.
   split; [vm_compute; reflexivity|]. split; [vm_compute; reflexivity|]. vm_compute. discriminate.
 Qed.
 
+(* non-vacuity of the stateful form: a rule that COUNTS its own invocations (state nat) and logs its arguments *)
+Example C04_answering_nonvacuous :
+  let rule : rule2 nat := fun i n c t => (S i, ex_f n) in
+  (forall s n c t, snd (rule s n c t) = ex_f n) /\
+  (* same arrays, different final states: 36 calls unmemoized, 8 memoized *)
+  evolve2d_mode_fixed rule store_id Plain 1 Moore 0%nat [ex_g] 4 = Ok (36%nat, ex_out) /\
+  evolve2d_mode_fixed rule store_id Memo 1 Moore 0%nat [ex_g] 4 = Ok (8%nat, ex_out) /\
+  evolve2d_mode_fixed rule store_id Recursive 1 Moore 0%nat [ex_g] 4 = Ok (8%nat, ex_out).
+Proof. split; [intros; reflexivity|]. repeat (split; [vm_compute; reflexivity|]). vm_compute; reflexivity. Qed.
+
 (* 3x4 and 4x3 arrays with the same bytes: both stored, each read back with its own value; and the shortcut
    of get() alone WOULD confuse them (last conjunct) — it is __contains__ that prevents it *)
 Definition ex_a34 : grid := [[1;2;3;4];[5;6;7;8];[9;10;11;12]].
@@ -210,3 +285,7 @@ Print Assumptions C04_evolve2d_dispatch.
 Print Assumptions C04_calls2d_independent.
 Print Assumptions C04_memo2d_true_transparent_on_built_neighbourhoods.
 Print Assumptions C04_memo2d_true_transparent_on_built_neighbourhoods_callable.
+Print Assumptions C04_memo2d_true_transparent_answering.
+Print Assumptions C04_memo2d_true_transparent_answering_callable.
+Print Assumptions C04_memo2d_recursive_transparent_answering.
+Print Assumptions C04_memo2d_recursive_transparent_answering_callable.
